@@ -323,8 +323,31 @@ func c04Try(c *Ctx, r *Result) {
 			body = e.in.(*ssa.Call)
 		}
 	}
-	if body == nil {
-		r.Undecide("R04b: the evaluation of the try body (node.Children[0].Runtime.Eval) was not found in %s", key)
+	// the function that registers the finally may hand the rest (body, except dispatch, otherwise)
+	// to a method of the same runtime: the body is then evaluated there, and for the ordering of
+	// the registration the call of that method stands for the body
+	bodyFn := tryEval
+	var bodyAnchor ssa.Instruction
+	if body != nil {
+		bodyAnchor = body
+	} else {
+		for h, sites := range staticCalleesIn(c, tryEval) {
+			if h.Signature.Recv() == nil || namedOf(h.Signature.Recv().Type()) != namedOf(tryEval.Signature.Recv().Type()) || len(sites) != 1 {
+				continue
+			}
+			allInstrs(h, func(in ssa.Instruction) {
+				call, ok := in.(*ssa.Call)
+				if ok && body == nil && call.Call.IsInvoke() && call.Call.Method.Name() == "Eval" && types.Identical(call.Call.Value.Type().Underlying(), rtIface) &&
+					strings.Contains(accessPath(call.Call.Value), "node.Children[0].Runtime") {
+					body = call
+					bodyFn = h
+					bodyAnchor, _ = sites[0].(ssa.Instruction)
+				}
+			})
+		}
+	}
+	if body == nil || bodyAnchor == nil {
+		r.Undecide("R04b: the evaluation of the try body (node.Children[0].Runtime.Eval) was not found in %s or a method it calls", key)
 		return
 	}
 	// R04b
@@ -333,6 +356,19 @@ func c04Try(c *Ctx, r *Result) {
 		if hasName(e.facts, "finally") {
 			fin = append(fin, e)
 		}
+	}
+	if bodyFn != tryEval {
+		// a finally evaluated in the body function as well would be a second site
+		allInstrs(bodyFn, func(in ssa.Instruction) {
+			ci, ok := in.(ssa.CallInstruction)
+			if !ok || !ci.Common().IsInvoke() || ci.Common().Method.Name() != "Eval" || !types.Identical(ci.Common().Value.Type().Underlying(), rtIface) {
+				return
+			}
+			_, isDefer := in.(*ssa.Defer)
+			if e := (ev{in, isDefer, FactsAt(in)}); hasName(e.facts, "finally") {
+				fin = append(fin, e)
+			}
+		})
 	}
 	pos := c.Pos(tryEval.Pos())
 	switch {
@@ -349,13 +385,26 @@ func c04Try(c *Ctx, r *Result) {
 		p := c.Pos(c.InstrPos(fin[0].in))
 		r.Instance("R04b", key+"#finally", p, "finding", "deferred inside a loop", true)
 		r.Report(Finding{Rule: "R04b", Site: key + "#finally", Pos: p, Msg: key + ": the finally body is deferred inside a loop (it could run several times)"})
-	case canReach(body, fin[0].in) || !canReach(fin[0].in, body):
+	case fin[0].in.Parent() != tryEval || canReach(bodyAnchor, fin[0].in) || !canReach(fin[0].in, bodyAnchor):
 		p := c.Pos(c.InstrPos(fin[0].in))
 		r.Instance("R04b", key+"#finally", p, "finding", "registered after the try body", true)
 		r.Report(Finding{Rule: "R04b", Site: key + "#finally", Pos: p, Msg: key + ": the deferred finally is not registered before the try body is evaluated (an error or return in the body skips it)"})
 	default:
 		// the test that guards the registration must dominate the body
 		r.Instance("R04b", key+"#finally", c.Pos(c.InstrPos(fin[0].in)), "ok", "one deferred evaluation, outside loops, registered before the try body", true)
+	}
+	// the remaining clauses are decided in the function that evaluates the body
+	if bodyFn != tryEval {
+		tryEval = bodyFn
+		evals = nil
+		allInstrs(tryEval, func(in ssa.Instruction) {
+			ci, ok := in.(ssa.CallInstruction)
+			if !ok || !ci.Common().IsInvoke() || ci.Common().Method.Name() != "Eval" || !types.Identical(ci.Common().Value.Type().Underlying(), rtIface) {
+				return
+			}
+			_, isDefer := in.(*ssa.Defer)
+			evals = append(evals, ev{in, isDefer, FactsAt(in)})
+		})
 	}
 	// R04c
 	bodyErr := errValueOf(body, 1)
